@@ -563,7 +563,6 @@ func c04ReadOnly(c *core.Ctx) {
 	}
 }
 
-
 // c04SameAsSearch: the function ranges over a list of notes and returns true
 // where `<param argIdx>.SameAs(element)` (or the symmetric call) holds, and
 // false after the loop.
@@ -621,7 +620,6 @@ func c04SameAsSearch(p *core.Program, fn *types.Func, argIdx int) bool {
 	}
 	return trueUnderMatch && falseAtEnd
 }
-
 
 var c04cg *callers
 
